@@ -23,6 +23,7 @@
 import CatVerif.Proofs.Args
 import CatVerif.Properties.C02
 import CatVerif.Proofs.Text
+import CatVerif.Proofs.TextF
 namespace Cat
 open St
 
@@ -301,5 +302,26 @@ theorem C06_first_test_text_partial (D : Desc) (s : St) (i : SvcIn) (hb : D.cmdC
   obtain ⟨hst, htx, hcm, hbl⟩ := startFormatTest_text D s hb hc hv ht hfit
   have e := htx.cstr_eq hbl hn
   rw [C06_test_handler D _ i hst, e.1, e.2, hcm]
+
+/-- **exact text, first round, unsolicited READ event of a handler-only command** (partial in the same sense as
+`C06_first_read_text_partial`): the read handler of the event's command is invoked with exactly name ++ `=` as NUL-terminated
+text in the unsolicited machine's own region — its own buffer or its half of the shared one —, `data_size` = its length,
+`max_data_size` = that region's capacity -/
+theorem C06_first_read_text_uns_partial (D : Desc) (s : St) (i : SvcIn) (hb : BufLen D s .uns) (hc : s.ucmd.isSome = true)
+    (hv : varsAccessible (D.cmdD s.ucmd) .ro = false) (hr : (D.cmdD s.ucmd).hasRead = true)
+    (hfit : (D.cmdD s.ucmd).name.length + 1 < D.unsCap) (hn : ∀ b ∈ (D.cmdD s.ucmd).name, b ≠ 0) :
+    tr .cbU (unsolicitedEventsService D (startFormatRead D s .uns) i).1.log =
+      tr .cbU (startFormatRead D s .uns).log ++
+        [.handler .uns .read (s.ucmd.getD 0) ((D.cmdD s.ucmd).name ++ [61]) true ((D.cmdD s.ucmd).name.length + 1) D.unsCap i.hu.ret] := by
+  obtain ⟨htx, hcm, hbl, hst⟩ := startFormatRead_textF D s .uns hb hc hv hr hfit
+  have hnn : ∀ b ∈ (D.cmdD s.ucmd).name ++ [61], b ≠ 0 := by
+    intro b hb'
+    rcases List.mem_append.1 hb' with h | h
+    · exact hn b h
+    · simp at h; subst h; decide
+  have e := htx.cstr_eq hbl hnn
+  simp only [St.cmdOf, St.pos] at e hcm
+  rw [C06_read_handler_uns D _ i hst, e.1, e.2, hcm]
+  simp
 
 end Cat
